@@ -299,18 +299,28 @@ def _additive_constants(expr, env):
     return out
 
 
-def rule_r4(chk):
-    chk.rule("C01-R4", "create_deviation_solution copies every slot and zeroes exactly the slots that enter the recursions as additive "
+def rule_r4(chk, rid="C01-R4"):
+    chk.rule(rid, "create_deviation_solution copies every slot and zeroes exactly the slots that enter the recursions as additive "
              "constants (K in the transition recursion, D in the measurement equation, Ka in the triangular/initial-condition form); "
              "simulators request the solution with the caller's deviation flag", floor=6)
     m = chk.repo.mod(SOL)
     f = m.func("Solution.create_deviation_solution")
     chk.saw(m, "Solution.create_deviation_solution")
-    zeroed = sorted(dotted(n.targets[0])[4:] for n in ast.walk(f) if isinstance(n, ast.Assign) and (dotted(n.targets[0]) or "").startswith("new.")
-                    and isinstance(n.value, ast.Call) and (dotted(n.value.func) or "").endswith("zeros_like"))
+    def _is_zero(v):
+        return isinstance(v, ast.Call) and (dotted(v.func) or "").split(".")[-1] in ("zeros_like", "zeros")
+    zeroed = {dotted(n.targets[0])[4:] for n in ast.walk(f) if isinstance(n, ast.Assign) and (dotted(n.targets[0]) or "").startswith("new.") and _is_zero(n.value)}
+    # the same written as a loop over slot names: for n in ("K", ...): setattr(new, n, zeros_like(...))
+    for lp in ast.walk(f):
+        if isinstance(lp, ast.For) and isinstance(lp.target, ast.Name) and isinstance(lp.iter, (ast.Tuple, ast.List)) \
+                and all(isinstance(e, ast.Constant) and isinstance(e.value, str) for e in lp.iter.elts):
+            for c in ast.walk(lp):
+                if isinstance(c, ast.Call) and dotted(c.func) == "setattr" and len(c.args) == 3 and unparse(c.args[0]) == "new" \
+                        and unparse(c.args[1]) == lp.target.id and _is_zero(c.args[2]):
+                    zeroed |= {e.value for e in lp.iter.elts}
+    zeroed = sorted(zeroed)
     src = squash(f)
     copies_all = "forninnew.__slots__:setattr(new,n,getattr(self,n,None))" in src.replace("\n", "")
-    chk.ob("C01-R4", "fords.solutions.Solution.create_deviation_solution[carries every slot]", copies_all, "all slots are copied before the constants are zeroed", m.loc(f))
+    chk.ob(rid, "fords.solutions.Solution.create_deviation_solution[carries every slot]", copies_all, "all slots are copied before the constants are zeroed", m.loc(f))
     # additive constants found in the recursions
     sm = chk.repo.mod(SIM)
     sf = sm.func("simulate_flat")
@@ -336,20 +346,20 @@ def rule_r4(chk):
     if uses_ka and "Ka[" in squash(m.func("Solution.Ka_stable")):
         consts.add("solution.Ka")
     found = sorted(c.split(".")[1] for c in consts)
-    chk.ob("C01-R4", "fords.solutions.Solution.create_deviation_solution[zeroed == additive constants]", zeroed == found,
-           f"zeroed {zeroed}; additive constants of the recursions {found}", m.loc(f))
+    chk.ob(rid, "fords.solutions.Solution.create_deviation_solution[zeroed == additive constants]", (zeroed == found) if zeroed else None,
+           f"zeroed {zeroed}; additive constants of the recursions {found}" if zeroed else "no zeroing statement recognised", m.loc(f), sure=bool(zeroed))
     for q in ("simulate_flat", "_simulate_measurement", "_simulate_conditional"):
         g = sm.func(q)
         c = calls_to(g, "model_v._gets_solution")
         ok = len(c) == 1 and [(k.arg, squash(k.value)) for k in c[0].keywords] == [("deviation", "deviation")]
-        chk.ob("C01-R4", f"fords.simulators.{q}[deviation flag]", ok if c else None, f"_gets_solution({', '.join(f'{k.arg}={unparse(k.value)}' for k in c[0].keywords) if c else '?'})", sm.loc(g))
+        chk.ob(rid, f"fords.simulators.{q}[deviation flag]", ok if c else None, f"_gets_solution({', '.join(f'{k.arg}={unparse(k.value)}' for k in c[0].keywords) if c else '?'})", sm.loc(g))
     d = assign_value(ms, "D")
-    chk.ob("C01-R4", "fords.simulators._simulate_measurement[D]", squash(d) in ("solution.Difnotdeviationelse0", "solution.D") if d is not None else None,
+    chk.ob(rid, "fords.simulators._simulate_measurement[D]", squash(d) in ("solution.Difnotdeviationelse0", "solution.D") if d is not None else None,
            f"D = {unparse(d) if d is not None else '?'}", sm.loc(ms))
     # initial condition: false initials are zeroed in both modes
     zf = sm.func("zero_false_init_xi")
     ok = "false_initials=[notiforiintrue_initials]" in squash(zf) and "init_xi[false_initials,...]=0" in squash(zf)
-    chk.ob("C01-R4", "fords.simulators.zero_false_init_xi", ok, "state elements that are not true initial conditions start at zero", sm.loc(zf))
+    chk.ob(rid, "fords.simulators.zero_false_init_xi", ok, "state elements that are not true initial conditions start at zero", sm.loc(zf))
 
 
 def rule_r5(chk):
@@ -453,6 +463,10 @@ def run(chk):
     chk.guard(rule_r4, chk)
     chk.guard(rule_r5, chk)
     chk.guard(rule_r6, chk)
+    from . import c02
+    chk.guard(c02.rule_r6, chk, rid="C01-R7", sites=(1,))
+    from . import c06
+    chk.guard(c06.rule_r7, chk, rid="C01-R8", modules=("irispie.fords.simulators", "irispie.fords.shock_simulators"))
     from .. import args as _args
     chk.guard(_args.apply, chk, "C01-R90", {'fords'}, 1)
     chk.assumptions = [
